@@ -162,6 +162,14 @@ func queueLinearizability(c *vlib.Check, histories int) {
 		}()
 		wg.Wait()
 		res, _ := porcupine.CheckOperationsVerbose(model, ops, 60*time.Second)
+		if res == porcupine.Unknown {
+			// The checker's timeout is wall-clock. On a heavily loaded machine
+			// (and under the race detector) 60 s can pass on a history that
+			// needs milliseconds of CPU; check it again with a bound that only
+			// a truly pathological history reaches before giving up.
+			c.Count("queue_history_rechecks", 1)
+			res, _ = porcupine.CheckOperationsVerbose(model, ops, 5*time.Minute)
+		}
 		c.Count("queue_histories", 1)
 		c.Count("queue_ops", int64(len(ops)))
 		switch res {
